@@ -17,19 +17,20 @@ type deferred struct {
 
 // State is the symbolic machine state at a program point.
 type State struct {
-	Reach    Term
-	Cells    map[*ssa.Alloc]Value
-	Heaps    map[Sort]Term   // leaf sort -> heap array
-	MapDom   map[Sort]Term   // key sort -> (Array Int (Array K Bool))
-	MapVal   map[string]Term // "K|V|leaf" -> (Array Int (Array K V))
-	Frontier Term            // Int: every ref in use is < Frontier
-	Defers   []deferred
-	Ghost    map[string]Term
-	Base     string // generation of lazily created map/ghost symbols (changes at a full havoc)
+	Reach        Term
+	Cells        map[*ssa.Alloc]Value
+	Heaps        map[Sort]Term   // leaf sort -> heap array
+	MapDom       map[Sort]Term   // key sort -> (Array Int (Array K Bool))
+	MapVal       map[string]Term // "K|V|leaf" -> (Array Int (Array K V))
+	Frontier     Term            // Int: every ref in use is < Frontier
+	IterFrontier Term            // the frontier at the last loop head crossed (entry frontier outside loops)
+	Defers       []deferred
+	Ghost        map[string]Term
+	Base         string // generation of lazily created map/ghost symbols (changes at a full havoc)
 }
 
 func (s *State) Clone() *State {
-	n := &State{Reach: s.Reach, Frontier: s.Frontier, Base: s.Base,
+	n := &State{Reach: s.Reach, Frontier: s.Frontier, IterFrontier: s.IterFrontier, Base: s.Base,
 		Cells: make(map[*ssa.Alloc]Value, len(s.Cells)), Heaps: make(map[Sort]Term, len(s.Heaps)),
 		MapDom: make(map[Sort]Term, len(s.MapDom)), MapVal: make(map[string]Term, len(s.MapVal)),
 		Ghost: make(map[string]Term, len(s.Ghost))}
@@ -236,6 +237,7 @@ func (x *Exec) merge(edges []edge) *State {
 		}
 	}
 	n.Frontier = x.mergeTerm("frontier", edges, func(s *State) Term { return s.Frontier })
+	n.IterFrontier = x.mergeTerm("iterfrontier", edges, func(s *State) Term { return s.IterFrontier })
 	// defers: a defer statement executed on only some of the merging paths
 	// becomes conditional (its guard says on which paths it was registered)
 	var order []*ssa.Defer
